@@ -51,6 +51,12 @@ func (c *Ctx) gate(sc *Scenario, v *Violation, shrink func(rp *Replay)) (*Replay
 // shrinkAndReport is called with a scenario that violated: known findings let the run go
 // on (nil); otherwise the scenario is minimised while the signature stays the same.
 func (c *Ctx) shrinkAndReport(sc *Scenario, v *Violation) *Replay {
+	if encCache.armed {
+		// shrinking works on copies of the value: no caching meanwhile, the loop that
+		// called goes on with a fresh entry
+		armEncCache()()
+		defer armEncCache()
+	}
 	rp, fresh := c.gate(sc, v, c.shrink)
 	if fresh {
 		c.shrink(rp)
